@@ -130,6 +130,18 @@ func execTarget(r *Result) (string, bool) {
 func (cr *checkResult) verdict(set int, name string) (failed bool, known bool, code int) {
 	op := &Op{Kind: opExecTmpl, Set: set, Name: name, Data: benignData()}
 	r := cr.tw.call(op)
+	if r != nil && strings.Contains(r.Err, "on range loop re-entry") {
+		cr.note("failkind_range_loop_reentry")
+	}
+	if r != nil && strings.Contains(r.Err, "cannot compute output context") {
+		cr.note("failkind_uncomputable_recursive_context")
+	}
+	if r != nil && (strings.Contains(r.Err, "no such template") || strings.Contains(r.Err, "incomplete or empty template")) {
+		cr.note("failkind_undefined_or_empty_callee")
+	}
+	if r != nil && (strings.Contains(r.Err, "URL prefix") || strings.Contains(r.Err, "ambiguous URL")) {
+		cr.note("failkind_unsafe_or_ambiguous_url_prefix")
+	}
 	if r == nil || r.Skipped != "" || r.Panic != "" {
 		return false, false, 0
 	}
